@@ -123,7 +123,8 @@ def faults(rng, run):
     return s
 
 
-GREETINGS_OK = [b"OK MPD 0.23.5\n", b"OK MPD 0.21.11\n", b"OK MPD x\n", b"OK MPD 0.24 beta \xc3\xa9\n", b"OK MPD  \n", b"OK MPD 0.23.5\r\n"]
+GREETINGS_OK = [b"OK MPD 0.23.5\n", b"OK MPD 0.21.11\n", b"OK MPD x\n", b"OK MPD 0.24 beta \xc3\xa9\n", b"OK MPD  \n", b"OK MPD 0.23.5\r\n",
+                b"OK MPD 0.24~\xce\xb21\n", b"OK MPD \xf0\x9f\x8e\xb5\n"]
 GREETINGS_BAD = [b"foobar\n", b"OK MPD \n", b"OK MPD 0.2\xff3\n", b"ok mpd 0.23.5\n", b"OK  MPD 0.23.5\n", b"\n", b"ACK [5@0] {} x\n", b"OK\n", b"OK MPD 0.23\xc3\n"]
 GREETINGS_CUT = [b"OK MPD 0.23.5", b"OK MP", b"O", b"", b"foo", b"OK MPD \xc3"]
 
@@ -141,10 +142,15 @@ def handshake(rng, run):
         g = rng.choice(GREETINGS_CUT)
     cfg["greeting"] = list(g)
     # segmentation of the greeting
+    slow = rng.random() < 0.3      # a slow peer: an hour passes between the segments / before the verdict (the outcome must not depend on time)
     if rng.random() < 0.6 and len(g) > 1:
         k = rng.randint(1, 3)
         for _ in range(k):
             pre.append([{"op": "deliver", "bytes": rng.randint(1, max(1, len(g) - 1))}])
+            if slow:
+                pre.append([{"op": "timeout"}])
+    if slow and rng.random() < 0.5:
+        pre.append([{"op": "timeout"}])
     pre.append([{"op": "deliver"}])
     if not g.endswith(b"\n"):
         pre.append([{"op": "fault", "kind": "eof"}])
@@ -156,6 +162,8 @@ def handshake(rng, run):
         if rng.random() < 0.3:
             cfg["srv_password"] = list(rng.choice([pw, b"other"]))
         # verdict delivery
+        if slow:
+            pre.append([{"op": "timeout"}])
         if rng.random() < 0.5:
             pre.append([{"op": "deliver", "bytes": rng.randint(1, 4)}])
         pre.append([{"op": "deliver"}])
